@@ -576,6 +576,10 @@ def sugar_texts(tier: str) -> List[Tuple[str, str]]:
         'forall <stmt> s="<assgn> ; <stmt>" in start: (> (str.len s) 6)',
         'exists <rhs> r="<digit>" in start: (= r "7")',
         'forall <assgn> a="<var> := <rhs>" in start: exists <var> v in a: (= v "a")',
+        # optional parts of a match expression
+        'forall <stmt> s="{<assgn> a}[ ; <stmt>]" in start: (str.prefixof "a" a)',
+        'exists <stmt> s="<assgn>[ ; {<stmt> t}]" in start: (= t "a := 1")',
+        'forall <stmt> s="{<assgn> a}[ ; <stmt>]" in start: exists <stmt> u="<assgn>[ ; {<stmt> t}]" in s: (not (= a t))',
     ]
     T += [("lang", t) for t in lang]
     xml = [
@@ -685,7 +689,9 @@ def c07_worker(job: Dict[str, Any]) -> Dict[str, Any]:
     else:
         cls = classify_unparse_failure(F, U)
         if cls == "other" and str(F) == str(F2):
-            cls = "same-text"     # only the internal tokenisation of a match expression differs
+            # only the internal tokenisation of a match expression differs: a recorded finding for grammars whose terminals
+            # contain '<' (the XML-like grammar); anywhere else it is unexplained
+            cls = "same-text" if gname == "xml" else "same-text-unexplained"
         res.append(dict(name="reparse-equal", verdict="violated", key="reparse-equal/%s" % cls,
                         solver_s=0.0, what="parse_isla(unparse_isla(F)) != F: F=%s ; F2=%s" % (str(F)[:200], str(F2)[:200])))
     try:
